@@ -102,8 +102,12 @@ def run_history(chk, uni, drv, rng, length, stats):
                 op = {"op": "activate", "p": p}
             elif r < 0.5:
                 if not active[p]:
-                    continue
-                op = {"op": "deactivate", "p": p, "exc": rng.random() < 0.3}
+                    # now and then: deactivate a probe a second time (refused, nothing may change)
+                    if not (activated[p] and rng.random() < 0.3):
+                        continue
+                    op = {"op": "deactivate", "p": p, "exc": False, "again": True}
+                else:
+                    op = {"op": "deactivate", "p": p, "exc": rng.random() < 0.3}
             elif r < 0.58:
                 op = {"op": "attach", "p": p, "stage": run.nstages[p]}
             else:
@@ -115,6 +119,11 @@ def run_history(chk, uni, drv, rng, length, stats):
                 activated[p] = True
             if op["op"] == "deactivate":
                 active[p] = False
+                if op.get("again"):
+                    if out == "ok":
+                        chk.violation("oracle", "deactivating probe %d a second time was accepted" % p,
+                                      {"probes": probe_sels, "history": hist + [op]})
+                    out = "not-active"
             hist.append(op)
             impl_steps.append((op, out, obs, list(active)))
             # ---- oracle, from the history alone
@@ -211,7 +220,8 @@ def run(chk):
     chk.cov["rule"] = (
         "histories of 8-24 operations over 1-3 probes (1-2 selectors each from 10 overlapping selectors on 2 "
         "functions, 12% with a selector that verification refuses): activate (incl. repeated attempts), "
-        "deactivate in ANY order (30% as if the with-block was left by an exception), attach a stage, call; "
+        "deactivate in ANY order (30% as if the with-block was left by an exception; now and then a second time: "
+        "refused, nothing changes), attach a stage, call; "
         "the implementation is observed after every step. non-trivial = at least two activations and a call")
     stats = {"histories": 0, "steps": 0, "disagreements": 0}
     n = 250 if chk.tier == "quick" else 5000
